@@ -118,7 +118,7 @@ func (p *Prog) JS() string {
 		sb.WriteString("Array.prototype.zz = 1; Object.prototype.yy = 1;\n")
 	}
 	switch p.Ret {
-	case "null":
+	case "null", "nilexe": // (a script has no way to hand back no execution at all: it returns null)
 		sb.WriteString("return null;\n")
 	case "scalar":
 		sb.WriteString("return 3;\n")
@@ -286,6 +286,11 @@ func (g *G) Action(guard bool, mode string) *Prog {
 		}
 	} else if g.P(1, 12) {
 		p.Ret = g.PickS("fresh", "null")
+		if p.Lang == "native" && g.P(1, 2) {
+			// a native action or guard that hands back nothing at all: (nil, nil)
+			p.Ret = "nilexe"
+			p.Ops = [][]interface{}{}
+		}
 	}
 	if guard {
 		switch g.Intn(4) {
